@@ -38,6 +38,7 @@ class Unsupported(Exception):
 # IR: expressions.  ty in {"Z","R","B","LR","LZ"} or ("T", [tys]) for tuples
 # ----------------------------------------------------------------------------
 RESERVED = set("""
+cons app 
 as at cofix else end exists exists2 fix for forall fun if IF in let match mod return Set Prop Type then using where with
 sin cos sqrt exp ln PI pow map seq nth fold_left fold_right repeat length firstn skipn hd tl Rabs Rmax Rmin IZR INR Int_part
 sum_list prod_list zrange zlen norm_idx py_from py_upto py_slice py_nth idx_ok py_set py_set_slice slice_len_ok py_repeat
@@ -216,6 +217,8 @@ class ListLit(E):
         self.kids = tuple(self.items)
 
     def pp(self, sc):
+        if not self.items:
+            return "(@nil R)", 0
         return "[" + "; ".join(fmt(i, sc, 99) for i in self.items) + "]", 0
 
 
@@ -589,6 +592,15 @@ class FnTranslator:
             if c is not None:
                 env.assumptions.append("%s.%s fixed at its constructor default %s" % (env.cls, n.attr, c[1]))
                 return c[0]
+            c = self.tr.ctor_super(env.cls, n.attr)
+            if c is not None:
+                env.assumptions.append("%s.%s = %s (from the constructor's super().__init__ call)" % (env.cls, n.attr, ast.unparse(c)))
+                cenv = Env(self.tr, "function")
+                cenv.vars = {"nobjs": ("nobjs", "Z"), "nvars": ("nvars", "Z")}
+                v = FnTranslator(self.tr, cenv).expr(c, cenv)
+                if v.ty not in ("Z", "R"):
+                    raise Unsupported("attribute self.%s resolves to a non-number" % n.attr, n)
+                return v
             raise Unsupported("attribute self." + n.attr, n)
         if self.solname and is_name(n.value, self.solname) and n.attr == "variables":
             return Var("xs", "LR")
@@ -805,6 +817,9 @@ class FnTranslator:
             if iv == unit:
                 return app("prod_list" if mul else "sum_list", [lst], "R")
             return app("fold_left", [app("Rmult" if mul else "Rplus", [], "R"), lst, toR(init)], "R")
+        if isinstance(f, ast.Name) and f.id == "list" and len(n.args) == 1 and isinstance(n.args[0], ast.Call) \
+                and is_name(n.args[0].func, "map") and len(n.args[0].args) == 2 and not n.args[0].keywords:
+            return self.map_call(n.args[0], env)
         if isinstance(f, ast.Name):
             name = f.id
             if name == "sum" and len(n.args) == 1:
@@ -849,6 +864,46 @@ class FnTranslator:
             raise Unsupported("call to " + name, n)
         raise Unsupported("call to " + ast.unparse(f), n)
 
+    def map_call(self, m, env):
+        """list(map(F, L)) or list(map(functools.partial(F, name=value, ...), L)) for a translated function F whose first
+        parameter receives the list element; the remaining parameters are given by keyword"""
+        fn, lst = m.args
+        dom = self.expr(lst, env)
+        if dom.ty != "LR":
+            raise Unsupported("map over " + str(dom.ty), m)
+        kws = {}
+        if isinstance(fn, ast.Call) and isinstance(fn.func, ast.Attribute) and is_name(fn.func.value, "functools") and fn.func.attr == "partial":
+            if len(fn.args) != 1 or not isinstance(fn.args[0], ast.Name):
+                raise Unsupported("functools.partial with positional arguments", m)
+            for kw in fn.keywords:
+                if kw.arg is None:
+                    raise Unsupported("functools.partial with **kwargs", m)
+                kws[kw.arg] = self.expr(kw.value, env)
+            fname = fn.args[0].id
+        elif isinstance(fn, ast.Name):
+            fname = fn.id
+        else:
+            raise Unsupported("map with " + ast.unparse(fn)[:40], m)
+        sig = self.tr.functions.get(fname)
+        if sig is None:
+            raise Unsupported("map of untranslated function " + fname, m)
+        ptys, rty, cname, trivial = sig
+        pnames = [a.arg for a in self.tr.defs[fname].args.args]
+        if rty != "R" or ptys[0] != "R" or set(kws) != set(pnames[1:]):
+            raise Unsupported("map of %s: keywords %s do not match parameters %s" % (fname, sorted(kws), pnames[1:]), m)
+        inner = env.copy()
+        v = inner.fresh("v")
+        args = [Var(v, "R")]
+        for pn, t in zip(pnames[1:], ptys[1:]):
+            a = kws[pn]
+            if t == "R":
+                a = toR(a, m)
+            if a.ty != t:
+                raise Unsupported("map of %s: parameter %s expects %s, got %s" % (fname, pn, t, a.ty), m)
+            args.append(a)
+        side = None if trivial else PAtom(cname + "_defined " + " ".join("{%d}" % i for i in range(len(args))), *args)
+        return Map(v, "R", app(cname + "_eval", args, "R", side=side), dom)
+
     # ---------------- statements
     # A block is translated to a function  k -> IR  where k builds the continuation from the final env
     # (continuation-passing so that lets nest correctly).  `ret` collects the result.
@@ -869,6 +924,12 @@ class FnTranslator:
                         elif isinstance(t, ast.Subscript) and self.solname and is_attr(t.value, self.solname, "objectives"):
                             if "$objs" not in out:
                                 out.append("$objs")
+                        elif isinstance(t, ast.Subscript) and self.solname and is_attr(t.value, self.solname, "constraints"):
+                            if "$cons" not in out:
+                                out.append("$cons")
+                elif isinstance(s, ast.Expr) and self.append_call(s) is not None:
+                    if self.append_call(s)[0] not in out:
+                        out.append(self.append_call(s)[0])
                 elif isinstance(s, ast.If):
                     visit(s.body)
                     visit(s.orelse)
@@ -876,6 +937,13 @@ class FnTranslator:
                     visit(s.body)
         visit(stmts)
         return out
+
+    def append_call(self, s):
+        v = s.value
+        if isinstance(v, ast.Call) and isinstance(v.func, ast.Attribute) and v.func.attr == "append" and isinstance(v.func.value, ast.Name) \
+                and len(v.args) == 1 and not v.keywords:
+            return v.func.value.id, v.args[0]
+        return None
 
     def mentions(self, node, name):
         return any(isinstance(x, ast.Name) and x.id == name for x in ast.walk(node))
@@ -889,6 +957,16 @@ class FnTranslator:
         if isinstance(s, ast.Expr):
             if isinstance(s.value, ast.Constant) and isinstance(s.value.value, str):
                 return cont(env)        # docstring
+            ap = self.append_call(s)
+            if ap is not None:
+                lname, arg = ap
+                if lname not in env.vars or env.vars[lname][1] != "LR":
+                    raise Unsupported("append to something that is not a local list", s)
+                cn, _ = env.vars[lname]
+                val = app("app", [Var(cn, "LR"), ListLit([toR(self.expr(arg, env), s)])], "LR")
+                env2 = env.copy()
+                env2.bind(lname, "LR")
+                return Let([cn], val, cont(env2))
             raise Unsupported("expression statement " + ast.unparse(s)[:40], s)
         if isinstance(s, ast.Pass):
             return cont(env)
@@ -940,6 +1018,8 @@ class FnTranslator:
             # solution.objectives[...] = ...
             if self.solname and is_attr(tgt.value, self.solname, "objectives"):
                 return self.assign_objs(tgt, val, env, cont, s)
+            if self.solname and is_attr(tgt.value, self.solname, "constraints"):
+                return self.assign_objs(tgt, val, env, cont, s, what="cons")
             if self.solname and is_attr(tgt.value, self.solname, "variables"):
                 raise Unsupported("store into solution.variables", s)
             if isinstance(tgt.value, ast.Name) and tgt.value.id in env.vars and env.vars[tgt.value.id][1] == "LR":
@@ -956,12 +1036,19 @@ class FnTranslator:
                 return Let([cn], new, cont(env2))
         raise Unsupported("assignment target " + ast.unparse(tgt), s)
 
-    def assign_objs(self, tgt, val, env, cont, s):
+    def assign_objs(self, tgt, val, env, cont, s, what="objs"):
         if self.env.kind != "method":
             raise Unsupported("objectives outside evaluate", s)
         env2 = env.copy()
-        nobjs = Var("nobjs", "Z")
-        cur = self.objs_now(env)
+        key = "$" + what
+        if what == "objs":
+            nobjs = Var("nobjs", "Z")
+        else:
+            c = self.tr.ctor_super(env.cls, "nconstrs")
+            if c is None or not isinstance(c, ast.Constant) or not isinstance(c.value, int):
+                raise Unsupported("number of constraints of %s is not a constructor constant" % env.cls, s)
+            nobjs = Const("Z", c.value)
+        cur = Var(what, "LR") if key in env.vars else None
         sl = tgt.slice
         if isinstance(sl, ast.Slice):
             if sl.step is not None:
@@ -976,8 +1063,8 @@ class FnTranslator:
                 # objectives[:] = V : all slots replaced when len(V) = nobjs (FixedLengthArray broadcasts otherwise)
                 new = val
                 side = PAtom("zlen {0} = {1}", val, nobjs)
-                env2.vars["$objs"] = ("objs", "LR")
-                e = Let(["objs"], new, cont(env2))
+                env2.vars[key] = (what, "LR")
+                e = Let([what], new, cont(env2))
                 e.extra_side = side
                 return e
             base = cur if cur is not None else app("py_repeat", [Const("R", Fraction(0)), nobjs], "LR")
@@ -988,8 +1075,8 @@ class FnTranslator:
                 raise Unsupported("non-integer index", s)
             base = cur if cur is not None else app("py_repeat", [Const("R", Fraction(0)), nobjs], "LR")
             new = app("py_set", [base, i, toR(val, s)], "LR", side=PAtom("idx_ok {0} {1}", base, i))
-        env2.vars["$objs"] = ("objs", "LR")
-        return Let(["objs"], new, cont(env2))
+        env2.vars[key] = (what, "LR")
+        return Let([what], new, cont(env2))
 
     def state_of(self, names, env):
         """python names (or $objs) assigned in a nested block that are live in env"""
@@ -1169,12 +1256,30 @@ SIGNATURES = {
     "_b_poly": (["R", "R"], "R"),
     "_b_param": (["R", "R", "R", "R", "R"], "R"),
     "_r_sum": (["LR", "LR"], "R"),
+    "_subvector": (["LR", "Z", "Z"], "LR"),
+    "_r_nonsep": (["LR", "Z"], "R"),
+    "_WFG1_t1": (["LR", "Z"], "LR"),
+    "_WFG1_t2": (["LR", "Z"], "LR"),
+    "_WFG1_t3": (["LR"], "LR"),
+    "_WFG1_t4": (["LR", "Z", "Z"], "LR"),
+    "_WFG2_t2": (["LR", "Z"], "LR"),
+    "_WFG2_t3": (["LR", "Z", "Z"], "LR"),
+    "_WFG4_t1": (["LR"], "LR"),
+    "_WFG5_t1": (["LR"], "LR"),
+    "_WFG6_t2": (["LR", "Z", "Z"], "LR"),
+    "_WFG7_t1": (["LR", "Z"], "LR"),
+    "_WFG8_t1": (["LR", "Z"], "LR"),
+    "_WFG9_t1": (["LR"], "LR"),
+    "_WFG9_t2": (["LR", "Z"], "LR"),
 }
-FUNCTION_ORDER = ["_correct_to_01", "_normalize_z", "_s_linear", "_s_multi", "_s_decept", "_b_flat", "_b_poly", "_b_param", "_r_sum",
+FUNCTION_ORDER = ["_correct_to_01", "_normalize_z", "_s_linear", "_s_multi", "_s_decept", "_b_flat", "_b_poly", "_b_param", "_subvector", "_r_sum", "_r_nonsep",
+                  "_WFG1_t1", "_WFG1_t2", "_WFG1_t3", "_WFG1_t4", "_WFG2_t2", "_WFG2_t3", "_WFG4_t1", "_WFG5_t1", "_WFG6_t2", "_WFG7_t1", "_WFG8_t1",
+                  "_WFG9_t1", "_WFG9_t2",
                   "_create_A", "_calculate_x", "_convex", "_concave", "_linear", "_mixed", "_disc",
                   "_calculate_f", "_WFG_calculate_f", "_WFG1_shape", "_WFG2_shape", "_WFG3_shape", "_WFG4_shape"]
 CLASS_ORDER = ["DTLZ1", "DTLZ2", "DTLZ3", "DTLZ4", "DTLZ7", "ZDT1", "ZDT2", "ZDT3", "ZDT4", "ZDT6",
                "UF1", "UF2", "UF3", "UF4", "UF5", "UF6", "UF7", "UF8", "UF9", "UF10",
+               "WFG1", "WFG2", "WFG3", "WFG4", "WFG5", "WFG6", "WFG7", "WFG8", "WFG9", "UF13",
                "CF1", "CF2", "CF3", "CF4", "CF5", "CF6", "CF7", "CF8", "CF9", "CF10"]
 TY_COQ = {"Z": "Z", "R": "R", "B": "bool", "LR": "list R"}
 
@@ -1221,6 +1326,57 @@ class Translator:
                                 return Const("Z", d.value), repr(d.value)
                             return Const("R", frac_of_float(d.value)), repr(d.value)
         return None
+
+    EXTERNAL_BASES = {"Problem": ["nvars", "nobjs", "nconstrs", "function"]}     # platypus.core.Problem.__init__
+
+    def ctor_super(self, cls, attr):
+        """self.attr where the class's __init__ passes an expression over its own parameters (nobjs/nvars only) or
+        constants to super().__init__ and the base __init__ stores that parameter as self.attr; returns the AST of the
+        argument expression"""
+        c = self.classes.get(cls)
+        if c is None:
+            return None
+        init = [f for f in c.body if isinstance(f, ast.FunctionDef) and f.name == "__init__"]
+        if len(init) != 1:
+            return None
+        init = init[0]
+        own = [a.arg for a in init.args.args][1:]
+        call = None
+        for st in init.body:
+            if isinstance(st, ast.Expr) and isinstance(st.value, ast.Call) and isinstance(st.value.func, ast.Attribute) \
+                    and st.value.func.attr == "__init__" and isinstance(st.value.func.value, ast.Call) and is_name(st.value.func.value.func, "super"):
+                call = st.value
+        if call is None or call.keywords or len(c.bases) != 1 or not isinstance(c.bases[0], ast.Name):
+            return None
+        bname = c.bases[0].id
+        if bname in self.classes:
+            binit = [f for f in self.classes[bname].body if isinstance(f, ast.FunctionDef) and f.name == "__init__"]
+            if len(binit) != 1:
+                return None
+            bparams = [a.arg for a in binit[0].args.args][1:]
+            stored = None
+            for st in binit[0].body:
+                if isinstance(st, ast.Assign) and len(st.targets) == 1 and isinstance(st.targets[0], ast.Attribute) \
+                        and is_name(st.targets[0].value, binit[0].args.args[0].arg) and st.targets[0].attr == attr and isinstance(st.value, ast.Name):
+                    stored = st.value.id
+            if stored is None or stored not in bparams:
+                return None
+            idx = bparams.index(stored)
+        elif bname in self.EXTERNAL_BASES:
+            if attr not in self.EXTERNAL_BASES[bname]:
+                return None
+            idx = self.EXTERNAL_BASES[bname].index(attr)
+        else:
+            return None
+        if idx >= len(call.args):
+            return ast.Constant(value=0) if (bname == "Problem" and attr == "nconstrs") else None
+        arg = call.args[idx]
+        for x in ast.walk(arg):
+            if isinstance(x, ast.Name) and (x.id not in own or x.id not in ("nobjs", "nvars")):
+                return None
+            if not isinstance(x, (ast.Name, ast.Constant, ast.BinOp, ast.operator, ast.expr_context, ast.UnaryOp, ast.unaryop)):
+                return None
+        return arg
 
     # ---------------- emit
     def emit_def(self, coqname, params, rty, body, side, comment):
@@ -1287,6 +1443,18 @@ class Translator:
             side = cond(body)
             params = [("nobjs", "Z"), ("nvars", "Z"), ("xs", "LR")]
             self.emit_def(name, params, "LR", body, side, "class %s: evaluate" % name)
+            env_c = Env(self, "method", name)
+            ft_c = FnTranslator(self, env_c, selfname=a.args[0].arg, solname=a.args[1].arg)
+            has_cons = [False]
+
+            def fin_c(e):
+                has_cons[0] = "$cons" in e.vars
+                return Var("cons", "LR") if has_cons[0] else Var("objs", "LR")
+            body_c = ft_c.block(fd.body, env_c, fin_c)
+            if has_cons[0]:
+                ps = " ".join("(%s : %s)" % (p_, TY_COQ[t_]) for p_, t_ in params)
+                self.out.append("(* class %s: evaluate, the constraint values *)" % name)
+                self.out.append("Definition %s_constr_eval %s : list R :=\n  %s.\n" % (name, ps, blk(body_c, "R", "  ")))
             self.results[name] = {"ok": True, "error": "", "assumptions": sorted(set(env.assumptions)), "coq": name + "_eval"}
         except Unsupported as u:
             self.results[name] = {"ok": False, "error": str(u), "assumptions": []}
